@@ -639,6 +639,8 @@ def c15(run):
 
 @check("C10")
 def c10(run):
+    run.mc_leg("mc_interrupt", "MC_Interrupt", "MC_Interrupt3.cfg" if run.tier == "thorough" else "MC_Interrupt2.cfg", workers=8, timeout=3000)
+    run.mc_leg("mc_interrupt_p4", "MC_Interrupt", "MC_Interrupt_p4.cfg", workers=4)
     r, path, n, rej = run.trace_leg("transparent", ["machine", "kind=transparent"], verdict=["intgate", "panic"])
     run.trace_leg("transparent_rel", ["machine", "kind=transparent"], spec="TV_Pairs", cfg="TV_Pairs.cfg",
                   verdict=PAIRV + ["interrupt-not-transparent"], expect_all=False, path=path)
